@@ -351,3 +351,12 @@ INSTANCES.update({
                       "terminal", {}),
 })
 
+
+# the inner future holds a span of its own across polls: released when it completes, or when the adapter is
+# dropped - before the adapter's span finishes (seeded S35: fields reordered, span dropped first)
+INSTANCES.update({
+    "poll_hold_c": (pollinst(["fut", "str"], cancelable=True, inner=["none", "hold", "ls"], menu=["root", "fnew", "fpoll", "fdrop", "drop"], MaxSpans=3,
+                             MaxOps=5, MaxPolls=3, MaxCycles=2), "terminal", {}),
+    "poll_hold_d": (pollinst(["fut", "snk"], inner=["none", "hold", "ev"], menu=["root", "fnew", "fpoll", "fdrop", "drop"], MaxSpans=3,
+                             MaxOps=5, MaxPolls=3, MaxCycles=1), "terminal", {}),
+})
